@@ -79,6 +79,8 @@ func checkC05(c *core.Ctx) error {
 		nq, nd = 0, 120
 	}
 	u := engs.SelectUniverse(all, c.Quick(), c.Seed, nq, nd)
+	nfix := addFixtures(u)
+	c.Set("types_fixture_family", nfix)
 	devLimit(u)
 	o := copyOpts()
 	r, _, err := exportCases(c, "main", u.IDs, u.Types, false)
